@@ -1,5 +1,6 @@
 //! vfs <PROPERTY> <quick|thorough> [--replay FILE] — engines that need libc interposition.
 mod c02;
+mod copymc;
 mod crashmc;
 mod fsmodel;
 pub mod shim;
@@ -29,6 +30,7 @@ fn main() {
   let code = match prop {
     "C01" => crashmc::run_c01(&ctx),
     "C02" => c02::run_c02(&ctx),
+    "C28" => copymc::run(&ctx),
     _ => {
       eprintln!("unknown property {prop}");
       2
